@@ -3,6 +3,7 @@ from __future__ import annotations
 
 import ast
 
+from ..absint import AObj, Raised, Unsupported
 from ..model import AnalysisError, ClassInfo, Program, norm_stmt, own_nodes, reachable, sccs
 from ..report import Report
 from ..rx import find_mark_regex
@@ -121,6 +122,64 @@ def run(P: Program, rep: Report):
     rep.rule("C01.R10", "the library the splitter adds to never raises for keys that look alike: entries / strings whose keys differ only in "
                         "letter case (or by case folding, or a trailing blank) are added as distinct live blocks")
     common.keys_are_exact(P, rep, "C01.R10")
+
+    rep.rule("C01.R11", "document table: parse_string followed by write_string, run by the interpreter on concrete texts (edge texts - empty, "
+                        "byte-order mark, every truncation of an entry / string / comment, repeated keys and field keys, CRLF - plus every "
+                        "sequence of up to three (thorough: four) block-level tokens), returns a Library and a string: no exception escapes "
+                        "the real splitter, default stacks, copies and writer on them")
+    from .. import doctable
+    dt = doctable.run_table(P, rep.tier)
+    rep.count("documents", dt["documents"])
+    rep.count("documents_decided", dt["ok"] + len(dt["bad"]))
+    fe = P.func("entrypoint", "parse_string")
+    shown = set()
+    for d, msg in dt["bad"]:
+        k = msg.split("(")[0]
+        if k in shown or len(shown) >= 4:
+            continue
+        shown.add(k)
+        rep.fail("C01.R11", f"document:{d[:40]!r}", fe.loc, f"for the document {d!r}: {msg}", {"input": d})
+    if not dt["bad"]:
+        if dt["ok"] * 5 < dt["documents"] * 4:
+            why = dt["undecided"][0] if dt["undecided"] else ("", "?")
+            raise AnalysisError(f"C01.R11: the interpreter could follow only {dt['ok']} of {dt['documents']} documents (e.g. {why[0]!r}: {why[1]})")
+        if dt["ok"] < dt["documents"]:
+            rep.not_decided.append(f"C01.R11 on {dt['documents'] - dt['ok']} of {dt['documents']} documents (constructs the interpreter does not model)")
+        rep.ok("C01.R11", f"documents:{dt['ok']}", fe.loc)
+
+    rep.rule("C01.R12", "no structure grows with the number of repetitions: in a document that repeats an entry key / a string key four times, "
+                        "every duplicate block refers to the first (live) block directly - a chain through earlier duplicates would make the "
+                        "deep copy of the default write stack recurse once per repetition (RecursionError on long documents)")
+
+    def chain(ctx):
+        it = common.driver_interp(P, ctx, "entrypoint")
+        it.MAX_LOOP = 4000
+        out = []
+        for doc in ("@a{k,t={1}}\n@a{k,t={2}}\n@a{k,t={3}}\n@a{k,t={4}}\n", '@string{s = "1"}\n@string{s = "2"}\n@string{s = "3"}\n@string{s = "4"}\n'):
+            try:
+                lib = common.call_func(it, P.func("entrypoint", "parse_string"), doc)
+                blocks = it.iterate(it.get_attr(lib, "blocks"))
+                depth = []
+                for b in blocks[1:]:
+                    n, cur = 0, b
+                    while n < 10:
+                        try:
+                            nxt = it.get_attr(cur, "previous_block")
+                        except (Raised, Unsupported):
+                            break
+                        if not isinstance(nxt, AObj):
+                            break
+                        n, cur = n + 1, nxt
+                    depth.append((n, cur is blocks[0]))
+                out.append((doc, len(blocks), depth))
+            except (Raised, Unsupported) as e_:
+                out.append((doc, str(e_), None))
+        return out
+    from ..absint import explore as _explore
+    for ctx, rows in _explore(chain, 5):
+        for doc, n, depth in rows:
+            rep.check(depth is not None and n == 4 and all(d == (1, True) for d in depth), "C01.R12", f"duplicate-chain:{doc[:9]}", fe.loc,
+                      f"document {doc!r}: {n} blocks, (length of the previous_block chain, ends at the first block) per duplicate = {depth}; expected (1, True) each")
 
     if deferred is not None:
         raise deferred
